@@ -127,6 +127,7 @@ func AttrVariants(p string) []Node {
 	out = append(out, Node{Path: p, Kind: File, Perm: 0644, Mtime: mt[2], Data: Content(7, 5)})
 	out = append(out, Node{Path: p, Kind: File, Perm: 0644, Mtime: mt[0], Data: Content(7, 5), Xattrs: map[string]string{"user.k": "v"}})
 	out = append(out, Node{Path: p, Kind: File, Perm: 0644, Mtime: mt[0], Data: Content(7, 5), Xattrs: map[string]string{"trusted.k": "w"}})
+	out = append(out, Node{Path: p, Kind: File, Perm: 0755, Mtime: mt[0], Data: Content(7, 5), Xattrs: map[string]string{"security.capability": CapNetBind}})
 	for i, sz := range []int{0, 1, 32767, 32768, 32769, 65537} {
 		out = append(out, Node{Path: p, Kind: File, Perm: 0644, Mtime: mt[0] + int64(10+i), Data: Content(20+i, sz)})
 	}
@@ -146,3 +147,6 @@ func AttrVariants(p string) []Node {
 	out = append(out, Node{Path: p, Kind: Socket, Perm: 0755, Mtime: mt[0]})
 	return out
 }
+
+// CapNetBind is a valid security.capability value (revision 2, cap_net_bind_service permitted+effective).
+const CapNetBind = "\x01\x00\x00\x02\x00\x04\x00\x00\x00\x00\x00\x00\x00\x00\x00\x00\x00\x00\x00\x00"
